@@ -250,7 +250,9 @@ func (iter *DBIterator) materialize(src *kv.Entry) bool {
 	if iter == nil || src == nil {
 		return false
 	}
-	if src.IsDeletedOrExpired() {
+	if src.IsDeletedOrExpired() || isDeletedOrExpired(src.Meta, src.ExpiresAt) {
+		// A tombstone read back from a memtable or table carries the delete bit with
+		// an empty (non-nil) value, which Entry.IsDeletedOrExpired does not recognise.
 		return false
 	}
 	iter.entry = *src
